@@ -27,7 +27,9 @@ Inductive cnd :=
 | CMuxIs (m : mst) | CMuxIsNot (m : mst)
 | CDlcIs (d : dstf) | CDlcIsNot (d : dstf)
 | CDlci0 | CTypeDm | CMccPn | CMccMsc | CCommand | COddDlci
-| CHasAcceptor | CAccepts | CDlcUnknown | COpenPending.
+| CHasAcceptor | CAccepts | CDlcUnknown | COpenPending
+| CSizeOk                         (* self.acceptable_frame_size(pn.max_frame_size) *)
+| CNot (c : cnd) | CAnd (a b : cnd).
 
 Inductive eff :=
 | ENop | ERet | ERaise
@@ -53,7 +55,8 @@ Record fin := mkFin { f_kind : fkind; f_on0 : bool }.
 Record env := mkEnv {
   v_frame : fin;
   v_acceptor : bool;       (* self.acceptor is set (responder) *)
-  v_accepts : bool         (* the acceptor's answer for this channel *)
+  v_accepts : bool;        (* the acceptor's answer for this channel *)
+  v_size_ok : bool         (* the PN's frame size is acceptable to this end *)
 }.
 
 Record ist := mkIst {
@@ -76,8 +79,11 @@ Definition is_pn (k : fkind) := match k with KPnCmd | KPnRsp => true | _ => fals
 Definition is_msc (k : fkind) := match k with KMscCmd | KMscRsp => true | _ => false end.
 Definition is_cmd (k : fkind) := match k with KPnCmd | KMscCmd => true | _ => false end.
 
-Definition eval_cnd (E : env) (s : ist) (c : cnd) : bool :=
+Fixpoint eval_cnd (E : env) (s : ist) (c : cnd) : bool :=
   match c with
+  | CSizeOk => v_size_ok E
+  | CNot a => negb (eval_cnd E s a)
+  | CAnd a b => eval_cnd E s a && eval_cnd E s b
   | CMuxIs m => is_mst (i_mux s) m
   | CMuxIsNot m => negb (is_mst (i_mux s) m)
   | CDlcIs d => match i_dlc s with Some x => dstf_eqb x d | None => false end
@@ -173,12 +179,24 @@ Definition fin_of (f : fr2) : fin * nat :=
   match f with
   | G_SABM0 => (mkFin KSabm true, 0) | G_UA0 => (mkFin KUa true, 0) | G_DISC0 => (mkFin KDisc true, 0)
   | G_PNcmd d => (mkFin KPnCmd true, d) | G_PNrsp d => (mkFin KPnRsp true, d)
+  | G_PNcmdRB d => (mkFin KPnCmd true, d) | G_PNrspBad d => (mkFin KPnRsp true, d)
   | G_DM d => (mkFin KDm false, d) | G_SABM d => (mkFin KSabm false, d)
   | G_UA d => (mkFin KUa false, d) | G_DISC d => (mkFin KDisc false, d)
   end.
 
 (* frames the interpreted code sends, as model frames for channel d; MSC frames are
    not part of Model/RfcommSm2.v and are dropped *)
+(* rb: the PN response carries this end's own, unacceptable, configured frame size *)
+Definition fr2_of_gen (rb : bool) (d : nat) (f : fin) : list fr2 :=
+  match f_kind f, f_on0 f with
+  | KPnRsp, _ => if rb then [G_PNrspBad d] else [G_PNrsp d]
+  | KSabm, true => [G_SABM0] | KUa, true => [G_UA0] | KDisc, true => [G_DISC0]
+  | KSabm, false => [G_SABM d] | KUa, false => [G_UA d] | KDisc, false => [G_DISC d]
+  | KDm, _ => [G_DM d]
+  | KPnCmd, _ => [G_PNcmd d]
+  | KMscCmd, _ | KMscRsp, _ => []
+  end.
+
 Definition fr2_of (d : nat) (f : fin) : list fr2 :=
   match f_kind f, f_on0 f with
   | KSabm, true => [G_SABM0] | KUa, true => [G_UA0] | KDisc, true => [G_DISC0]
